@@ -3,6 +3,7 @@
 //   Q <nrels> <b|-|x> <ops>          sequential history on relations 1..nrels; the object state is dumped after every call
 //        ops ','-separated:  i:r:a:b insert   A:r:o r.insertAll(o)   X:r:o r.extendAndInsert(o)
 //                            c:r:a:b contains  s:r size               a:r:x getBoundaries<1>({x,_})
+//                            l:r     full iteration (begin..end)      p:r:n partition(n)
 //        b = run the whole query battery on every relation after every updating call (its calls perturb the forest by path
 //        halving, so state lines are only comparable with the model when the battery is off); "-": the battery runs at the end only;
 //        "x": no battery
@@ -153,6 +154,8 @@ static std::vector<Op> parseOps(const std::string& s, std::set<Val>& universe) {
         } else if (op.k == 'a') {
             op.a = (Val)std::stoll(f[2]);
             universe.insert(op.a);
+        } else if (op.k == 'p') {
+            op.a = (Val)std::stoll(f[2]);  // number of chunks
         }
         ops.push_back(op);
     }
@@ -192,6 +195,17 @@ static std::string applyOp(std::vector<std::unique_ptr<Rel>>& rels, const Op& op
             events.push_back("ant " + R + " " + std::to_string(op.a) + " " + l);
             std::size_t n = l == "-" ? 0 : std::count(l.begin(), l.end(), ',') + 1;
             return std::to_string(n);
+        }
+        case 'l': {  // full iteration
+            std::string l = listRange(r.begin(), r.end(), 100000);
+            events.push_back("all " + R + " " + l);
+            return std::to_string(l == "-" ? 0 : std::count(l.begin(), l.end(), ',') + 1);
+        }
+        case 'p': {  // partition(n)
+            std::string sx;
+            for (auto& rg : r.partition((std::size_t)op.a)) sx += listRange(rg.begin(), rg.end(), 100000) + "|";
+            events.push_back("part " + R + " " + std::to_string(op.a) + " " + (sx.empty() ? "|" : sx));
+            return "-";
         }
     }
     return "?";
